@@ -44,6 +44,7 @@ type Contract struct {
 	Ghosts      []ghostDecl
 	Cases       []caseSplit
 	AtCall      map[string][]Clause // "pkg.Recv.Fn#k": what must hold of the arguments at that static call site
+	LetAtCall   map[string][]Clause // "pkg.Recv.Fn#k": ghost definitions (assumed) naming the result of that call
 	Calls       []string         // every returning path has called these module functions
 	LoopCalls   map[int][]string // every iteration of loop N calls these module functions
 	Logicals    []logicalDecl // universally quantified specification variables (fresh at entry)
@@ -116,7 +117,7 @@ type ContractSet struct {
 	Lemmas    []*Lemma
 }
 
-var kwRe = regexp.MustCompile(`^(func|def|recdef|opaque|reveal|mapinv|lemma|axiom|assert|use_at_return|use|ghost|cases|at_call|calls|logical|refusal_implies|props|circuit|plain|requires|ensures|honest|loop|modifies|flag|hint|sound_ensures|complete_ensures|sound_requires|complete_requires)\b`)
+var kwRe = regexp.MustCompile(`^(func|def|recdef|opaque|reveal|mapinv|lemma|axiom|assert|use_at_return|use|ghost|cases|let_at_call|at_call|calls|logical|refusal_implies|props|circuit|plain|requires|ensures|honest|loop|modifies|flag|hint|sound_ensures|complete_ensures|sound_requires|complete_requires)\b`)
 
 func endsOpen(s string) bool {
 	s = strings.TrimSpace(s)
@@ -432,6 +433,24 @@ func parseClause(c *Contract, t string, no int) error {
 			cs.Quick = append(cs.Quick, v)
 		}
 		c.Cases = append(c.Cases, cs)
+	case "let_at_call":
+		// let_at_call pkg.Recv.Fn#k <expr over `ret` (the call's result), the arguments and the caller's locals>:
+		// a ghost definition - fresh uninterpreted specification functions are given the meaning "what this call
+		// returned in this iteration".  Assumed, not checked: sound as long as the defined symbols occur nowhere else
+		// with another meaning and their index is different in every iteration (listed in the evidence when used).
+		fs := strings.Fields(rest)
+		if len(fs) < 2 || !strings.Contains(fs[0], "#") {
+			return fmt.Errorf("let_at_call <callee>#<site> <expr>")
+		}
+		src := strings.TrimSpace(rest[len(fs[0]):])
+		ex, err := parseExprSrc(src)
+		if err != nil {
+			return err
+		}
+		if c.LetAtCall == nil {
+			c.LetAtCall = map[string][]Clause{}
+		}
+		c.LetAtCall[fs[0]] = append(c.LetAtCall[fs[0]], Clause{Expr: ex, Src: src, Line: no})
 	case "at_call":
 		// at_call pkg.Recv.Fn#k <expr over the callee's parameter names and the caller's locals>
 		fs := strings.Fields(rest)
